@@ -58,13 +58,47 @@ class Tick(object):
         self.t += 0.001
         return self.t
 
+class ScramException(Exception):
+    pass
+
+class BadSuccessException(ScramException):
+    pass
+
+class FakeScram(object):
+    """Stand-in for the absent pyxmpp2_scram with the interface irclib uses (HASH_FACTORIES,
+    SCRAMClientAuthenticator(hash, channel_binding).start/challenge/finish, ScramException,
+    BadSuccessException).  What the calls answer is a parameter of the run (`P`), as in the model."""
+    ScramException = ScramException
+    BadSuccessException = BadSuccessException
+    HASH_FACTORIES = {}
+    P = {'first': b'', 'final': None, 'finish': 0}
+    calls = []
+    class SCRAMClientAuthenticator(object):
+        def __init__(self, hash_name, channel_binding):
+            FakeScram.calls.append(('new', hash_name, channel_binding))
+        def start(self, properties):
+            FakeScram.calls.append(('start', dict(properties)))
+            return FakeScram.P['first']
+        def challenge(self, challenge):
+            FakeScram.calls.append(('challenge', challenge))
+            if FakeScram.P['final'] is None:
+                raise ScramException('bad challenge')
+            return FakeScram.P['final']
+        def finish(self, data):
+            FakeScram.calls.append(('finish', data))
+            if FakeScram.P['finish'] == 1:
+                raise BadSuccessException('bad server signature')
+            if FakeScram.P['finish']:
+                raise ScramException('server error')
+            return {}
+
 _B = None
 def boot():
     global _B
     if _B is None:
         b = bot.full(plugins=['Owner'])
         if b.irclib.scram is not None:
-            raise RuntimeError('pyxmpp2_scram is installed: the model assumes scram is unavailable')
+            raise RuntimeError('pyxmpp2_scram is installed: the harness drives the SCRAM control flow with a stand-in')
         b.irclib.time = Tick()
         b.excs = []
         def rec(fmt, *a, **k):
@@ -88,7 +122,8 @@ def boot():
 DEFAULT_CFG = {
     'nick': 'test', 'ident': 'limnoria', 'user': 'Limnoria bot', 'password': '',
     'alternates': ['%s`', '%s_'], 'mechs': [], 'sasluser': '', 'saslpass': '', 'ecdsakey': '',
-    'certfile': False, 'required': False, 'joins': False, 'leak': False,
+    'certfile': False, 'required': False, 'joins': False,
+    'scram': False, 'scramhashes': ['SHA-1', 'SHA-256'], 'scramfirst': 'n,,n=u,r=cnonce', 'scramfinal': 'c=biws,r=cnoncesnonce,p=proof', 'scramfinish': 0,
     'ssl': False, 'certvalidation': False, 'verifycerts': False, 'forced': False,
     'host': SERVER, 'port': 6667, 'policies': {}, 'lastdisc': {}, 'now': 100000,
 }
@@ -115,10 +150,16 @@ def apply_cfg(b, c):
     net.channels.setValue(['#vt'] if c['joins'] else [])
     net.ssl.setValue(bool(c['ssl']))
     conf.supybot.protocols.ssl.verifyCertificates.setValue(bool(c['verifycerts']))
-    if c['leak']:
-        b.irclib.Irc.REQUEST_CAPABILITIES.add('sasl')
+    b.irclib.Irc.REQUEST_CAPABILITIES.discard('sasl')      # class level: nothing may ever add it there
+    if c['scram']:
+        FakeScram.HASH_FACTORIES = dict((h, None) for h in c['scramhashes'])
+        FakeScram.P = {'first': c['scramfirst'].encode('utf-8'),
+                       'final': None if c['scramfinal'] is None else c['scramfinal'].encode('utf-8'),
+                       'finish': c['scramfinish']}
+        del FakeScram.calls[:]
+        b.irclib.scram = FakeScram
     else:
-        b.irclib.Irc.REQUEST_CAPABILITIES.discard('sasl')
+        b.irclib.scram = None
     n = b.ircdb.networks.getNetwork('test')
     n.stsPolicies.clear(); n.stsPolicies.update(c['policies'])
     n.lastDisconnectTimes.clear(); n.lastDisconnectTimes.update(c['lastdisc'])
@@ -152,6 +193,13 @@ class Obs(object):
     """one observation of the implementation: canonical string + the raw pieces the oracle needs"""
     __slots__ = ('s', 'msgs', 'calls', 'fsm', 'ls', 'req', 'ack', 'nak', 'auth', 'after', 'exc', 'wanted', 'x')
 
+SCRAM_STEPS = {'uninitialized': 0, 'first-sent': 1, 'final-sent': 2, 'authenticated': 3}
+
+def auth_field(irc):
+    """sasl_authenticated, sasl_response_sent, SCRAM step"""
+    return '%d%d%d' % (1 if irc.sasl_authenticated else 0, 1 if irc.sasl_response_sent else 0,
+                       SCRAM_STEPS[irc.sasl_scram_state['step']])
+
 def observe(irc):
     b = boot()
     st = irc.state
@@ -173,17 +221,17 @@ def observe(irc):
          ','.join(wire.enc(k) + '=' + wire.enc_opt(ls[k]) for k in sorted(ls)) if ls else '-',
          enc_set(st.capabilities_req), enc_set(st.capabilities_ack), enc_set(st.capabilities_nak),
          wire.enc_list(irc.sasl_next_mechanisms), wire.enc_opt(irc.sasl_current_mechanism),
-         '1' if irc.sasl_authenticated else '0',
+         auth_field(irc),
          '~' if d is None else ('%d:%s' % (1 if d.ready else 0, wire.enc_list([c.decode() for c in d.chunks]))),
          wire.enc(irc.nick), '1' if irc.afterConnect else '0', exc,
-         enc_set(type(irc).REQUEST_CAPABILITIES),
+         enc_set(irc.REQUEST_CAPABILITIES),
          ','.join(wire.enc(k) + '=' + wire.enc(v) for k, v in sorted(net.stsPolicies.items())) if net.stsPolicies else '-',
          ','.join(wire.enc(k) + '=' + str(v) for k, v in sorted(net.lastDisconnectTimes.items())) if net.lastDisconnectTimes else '-']
     o = Obs()
     o.s = '\t'.join(f); o.msgs = msgs; o.calls = calls; o.fsm = st.fsm.state.name
     o.ls = dict(ls); o.req = set(st.capabilities_req); o.ack = set(st.capabilities_ack); o.nak = set(st.capabilities_nak)
     o.auth = irc.sasl_authenticated; o.after = irc.afterConnect; o.exc = exc
-    o.wanted = set(type(irc).REQUEST_CAPABILITIES)
+    o.wanted = set(irc.REQUEST_CAPABILITIES)
     return o
 
 def parse_line(b, line):
@@ -395,10 +443,10 @@ class RealRun(object):
              ','.join(wire.enc(k) + '=' + wire.enc_opt(ls[k]) for k in sorted(ls)) if ls else '-',
              enc_set(st.capabilities_req), enc_set(st.capabilities_ack), enc_set(st.capabilities_nak),
              wire.enc_list(irc.sasl_next_mechanisms), wire.enc_opt(irc.sasl_current_mechanism),
-             '1' if irc.sasl_authenticated else '0',
+             auth_field(irc),
              '~' if d is None else ('%d:%s' % (1 if d.ready else 0, wire.enc_list([c.decode() for c in d.chunks]))),
              wire.enc(irc.nick), '1' if irc.afterConnect else '0', '-',
-             enc_set(type(irc).REQUEST_CAPABILITIES),
+             enc_set(irc.REQUEST_CAPABILITIES),
              ','.join(wire.enc(k) + '=' + wire.enc(v) for k, v in sorted(net.stsPolicies.items())) if net.stsPolicies else '-',
              ','.join(wire.enc(k) + '=' + str(v) for k, v in sorted(net.lastDisconnectTimes.items())) if net.lastDisconnectTimes else '-',
              ';'.join(queued) if queued else '-', ';'.join(sent) if sent else '-',
@@ -409,7 +457,7 @@ class RealRun(object):
         o.s = '\t'.join(f); o.msgs = []; o.calls = list(w.events); o.fsm = st.fsm.state.name
         o.ls = dict(ls); o.req = set(st.capabilities_req); o.ack = set(st.capabilities_ack); o.nak = set(st.capabilities_nak)
         o.auth = irc.sasl_authenticated; o.after = irc.afterConnect; o.exc = exc
-        o.wanted = set(type(irc).REQUEST_CAPABILITIES)
+        o.wanted = set(irc.REQUEST_CAPABILITIES)
         o.x = {'wire': list(w.sent), 'events': list(w.events), 'policies': dict(net.stsPolicies),
                'lastdisc': dict(net.lastDisconnectTimes), 'connected': drv.connected, 'sock': w.nsock,
                'current': tuple(drv.currentServer), 'inbuffer': bytes(drv.inbuffer), 'queued': queued,
@@ -790,7 +838,9 @@ def cfg_line(cfg, real=False, servers=()):
          'required:' + B(c['required']), 'joins:' + B(c['joins']), 'crypto:' + B(b.has_crypto), 'real:' + B(real),
          'ssl:' + B(c['ssl']), 'certvalidation:' + B(c['certvalidation']), 'verifycerts:' + B(c['verifycerts']),
          'servers:' + (','.join(srv(*s) for s in servers) if servers else '-'),
-         'leak:' + B(c['leak']), 'stub:' + srv(c['host'], c['port'], c['forced']),
+         'scram:' + B(c['scram']), 'scramhashes:' + wire.enc_list(c['scramhashes']), 'scramfirst:' + wire.enc(c['scramfirst']),
+         'scramfinal:' + wire.enc_opt(c['scramfinal']), 'scramfinish:%d' % c['scramfinish'],
+         'stub:' + srv(c['host'], c['port'], c['forced']),
          'policies:' + (','.join(wire.enc(k) + '=' + wire.enc(v) for k, v in sorted(c['policies'].items())) if c['policies'] else '-'),
          'lastdisc:' + (','.join(wire.enc(k) + '=' + str(v) for k, v in sorted(c['lastdisc'].items())) if c['lastdisc'] else '-'),
          'now:%d' % c['now']]
@@ -819,7 +869,10 @@ def unify(model, impl):
 # ------------------------------------------------------------------------------------------
 # the property statement on the implementation's stream (stub driver)
 # ------------------------------------------------------------------------------------------
-MECH_NAMES = ('PLAIN', 'EXTERNAL', 'ECDSA-NIST256P-CHALLENGE', 'SCRAM-SHA-256')
+MECH_NAMES = ('PLAIN', 'EXTERNAL', 'ECDSA-NIST256P-CHALLENGE')
+def is_mech(x):
+    """an AUTHENTICATE argument that names a mechanism (base64 has no '-')"""
+    return x in MECH_NAMES or x.startswith('SCRAM-')
 # numerics that make Irc.feedMsg adopt args[0] as the bot's nick (the server has registered us under it)
 NICK_SETTERS = ('001', '002', '003', '004', '005', '250', '251', '252', '254', '255', '265', '266', '372', '375', '376', '333', '353', '332', '366')
 
@@ -863,7 +916,7 @@ def safety_oracle(ops, obs):
                 if m.command == 'AUTHENTICATE':
                     if not sasl_acked:
                         bad.append(('sasl_after_ack', 'AUTHENTICATE %r sent although the server never acknowledged sasl' % (m.args,)))
-                    if not (m.args and m.args[0] in MECH_NAMES):
+                    if not (m.args and is_mech(m.args[0])):
                         # payload / abort: only as the answer to a server AUTHENTICATE, inside a SASL state
                         tm = trigger.split(' ')
                         tcmd = (tm[1] if tm[0].startswith(':') and len(tm) > 1 else tm[0]).upper()
@@ -882,7 +935,7 @@ def safety_oracle(ops, obs):
                     bad.append(('progress', 'the final CAP LS %r was answered neither by CAP REQ nor by CAP END nor by an abort (state %s): the bot waits for something the server will not send' % (trigger, o.fsm)))
             # the credentials of one answer end with a line shorter than the chunk size (or `+`): the server
             # takes a line of exactly AUTHENTICATE_CHUNK_SIZE characters as "more follows"
-            pay = [m.args[0] for m in o.msgs if m.command == 'AUTHENTICATE' and m.args and m.args[0] not in MECH_NAMES]
+            pay = [m.args[0] for m in o.msgs if m.command == 'AUTHENTICATE' and m.args and not is_mech(m.args[0])]
             if pay and len(pay[-1]) >= 400:
                 bad.append(('progress', 'the AUTHENTICATE answer ends with a %d-character line (%d lines): the server waits for the rest, the bot for the verdict' % (len(pay[-1]), len(pay))))
             if any(len(x) > 400 for x in pay) or any(len(x) != 400 for x in pay[:-1]):
@@ -931,11 +984,17 @@ def gen_cfg(r, stream):
     elif k == 8:
         c.update(mechs=['ecdsa-nist256p-challenge', 'external', 'plain'], sasluser='u', saslpass='p', ecdsakey=r.choice(['ok', 'bad']), certfile=True)
     else:
-        c.update(mechs=['scram-sha-256', 'plain'], sasluser=r.choice(['u', '']), saslpass='p')
+        c.update(mechs=r.choice([['scram-sha-256', 'plain'], ['scram-sha-256'], ['scram-sha-512', 'scram-sha-1', 'plain'],
+                                 ['scram-sha-256-plus', 'scram-sha-256'], ['SCRAM-SHA-256', 'scram-SHA-1', 'plain'], ['scram-', 'scram-sha-1-plus']]),
+                 sasluser=r.choice(['u', 'u', 'u', '']), saslpass='p')
+        if r.random() < 0.8:
+            # the SCRAM library is a parameter: what start()/challenge()/finish() answer
+            c.update(scram=True, scramfinal=r.choice(['c=biws,r=cs,p=proof', 'c=biws,r=cs,p=proof', 'f' * r.choice([299, 300, 301]), None]),
+                     scramfinish=r.choice([0, 0, 0, 1, 2]),
+                     scramfirst=r.choice(['n,,n=u,r=c', 'n,,n=u,r=c', '', 'n' * r.choice([297, 300, 303, 600])]),
+                     scramhashes=r.choice([['SHA-1', 'SHA-256'], ['SHA-1', 'SHA-256'], ['SHA-256'], []]))
     if r.random() < 0.35:
         c['required'] = True
-    if r.random() < 0.15:
-        c['leak'] = True
     if r.random() < 0.2:
         c['password'] = 'srvpw'
     if r.random() < 0.3:
@@ -1185,7 +1244,7 @@ def tags_of(run):
             if m.command == 'CAP':
                 t.add('out:CAP ' + (m.args[0] if m.args else ''))
             elif m.command == 'AUTHENTICATE':
-                t.add('out:AUTH ' + ('mech' if m.args and m.args[0] in MECH_NAMES else ('abort' if m.args == ('*',) else 'payload')))
+                t.add('out:AUTH ' + ('mech' if m.args and is_mech(m.args[0]) else ('abort' if m.args == ('*',) else 'payload')))
             else:
                 t.add('out:' + m.command)
         for c in o.calls:
